@@ -158,11 +158,18 @@ def _run_cb(ctx, spec, rng):
 
     r = spec[1]
     d = 2 if r % 3 else 3
-    kind = ["channel", "cp", "hp-difference", "hp-general", "cp-replacement", "hp-transpose", "hp-unital-affine", "general-AXB", "hp-difference"][r % 9]
+    kind = ["channel", "cp", "hp-difference", "hp-general", "cp-replacement", "hp-transpose", "hp-unital-affine", "general-AXB", "hp-difference",
+            "tp-not-hp"][r % 10]
     phase = 1.0
     if kind == "general-AXB":  # X -> A X B^dagger with A != B: not Hermiticity preserving; both cb norms equal |A| |B| (operator norms)
         a_, b_ = gen.rc(rng, d, d), gen.rc(rng, d, d)
         j = choi([a_], [b_])
+    elif kind == "tp-not-hp":
+        # a full-rank channel plus i t (channel - channel): trace preserving, not Hermiticity preserving, Choi matrix not Hermitian although a
+        # Hermitian completion of one of its triangles may well be positive semidefinite; the norm exceeds 1 and is bracketed by explicit inputs
+        t_ = float(rng.uniform(0.05, 0.5))
+        base = 0.7 * choi(gen.stinespring_kraus(rng, d, d, d * d)) + 0.3 * np.eye(d * d) / d
+        j = base + 1j * t_ * (choi([gen.haar(rng, d)]) - choi([gen.haar(rng, d)]))
     elif kind == "hp-transpose":  # X -> X^T: Hermiticity preserving, unital, trace preserving, not CP; every cb norm equals d
         j = sum(np.kron(e_, e_.T) for e_ in (np.outer(np.eye(d)[a_], np.eye(d)[b_]) for a_ in range(d) for b_ in range(d)))
     elif kind == "hp-unital-affine":  # (1 + t) id - t U . U^dagger: Hermiticity preserving, unital, trace preserving, not CP
@@ -202,6 +209,23 @@ def _run_cb(ctx, spec, rng):
         if abs(val - want) > TOLA * (1 + want) and abs(val - float(np.trace(j).real)) <= TOLA * (1 + want) and site and "trace_norm(v)" in site:
             mech = "cb_trace_norm:CP-shortcut-returns-Tr(J)[trace-norm-of-dual-applied-to-oversized-identity]"
         ctx.check("O2:cb-CP=operator-norm", None, dev=abs(val - want) / (1 + want), tol=TOLA, sig=sig, nt=True, mech=mech, detail=dict(det, operator_norm=want, trace_of_choi=float(np.trace(j).real)))
+    if kind in ("channel", "cp", "cp-replacement"):
+        # absolute homogeneity on completely positive maps: c Phi is not CP for a negative or complex c, its norm is |c| times the closed form
+        truth = 1.0 if kind == "channel" else float(np.linalg.norm(ref.partial_trace(j, [1], [d, d]), 2))
+        c = [1j, 2 * np.exp(0.7j), -0.5j, -1.0, np.exp(-0.3j), 0.5 + 0.5j][int(rng.integers(0, 6))]
+        scaled, site_c = _cb(ctx, c * j)
+        if scaled is not None:
+            ctx.check("O2:cb-homogeneous", None, dev=abs(scaled - abs(c) * truth) / (1 + abs(c) * truth), tol=TOLA * 2, sig=sig + ("scaled-cp",), nt=True,
+                      mech="cb_trace_norm:not-absolutely-homogeneous[scaled-CP-map]", detail=dict(det, c=c, scaled=scaled, want=abs(c) * truth, site=site_c))
+    if kind == "tp-not-hp":
+        lo = explicit_lower(rng, j, d)
+        ctx.check("O1:diamond>=explicit-input", val >= lo - TOLA * (1 + lo) and val <= ref.trace_norm(j) + TOLA * (1 + lo), sig=sig, nt=True,
+                  mech="cb_trace_norm:outside-explicit-bracket[not-hermiticity-preserving]", detail=dict(det, attained=lo, upper=ref.trace_norm(j)))
+        c = [1j, -1.0, np.exp(0.7j), 2.0][int(rng.integers(0, 4))]
+        scaled, _ = _cb(ctx, c * j)
+        if scaled is not None:
+            ctx.check("O2:cb-homogeneous", None, dev=abs(scaled - abs(c) * val) / (1 + abs(c) * val), tol=TOLA * 2, sig=sig, nt=True, mech="cb_trace_norm:not-absolutely-homogeneous",
+                      detail=dict(det, c=c, scaled=scaled))
     # bracket by NumPy-evaluated bounds (valid for every map): explicit inputs below, |J|_1 above for Hermiticity-preserving maps
     if kind.startswith("hp"):
         lo = explicit_lower(rng, j, d)
